@@ -207,6 +207,11 @@ def _build_contact(rng, ctx, det, bad=None):
     ax = random_unit(rng); ax[2] = 0; ax = ax / (np.linalg.norm(ax) + 1e-300)
     from vlib.oracles import rodrigues
     A = rodrigues(ax * tilt) @ rodrigues(np.array([0, 0, 1.0]) * rng.uniform(0, 6))
+    aligned = bad is None and rng.random() < 0.2
+    if aligned:
+        # horizontal plane whose tangent directions are the coordinate axes: slip velocities along one of them have an EXACTLY
+        # zero component
+        A, tilt = np.eye(3), 0.0
     n = A[:, 2]
     r0 = rng.normal(size=3)
     plane = Frame(r_OP=r0, A_IB=A, name="plane")
@@ -217,6 +222,9 @@ def _build_contact(rng, ctx, det, bad=None):
     t1, t2 = A[:, 0], A[:, 1]
     pos = r0 + rng.normal() * t1 + rng.normal() * t2 + R * n
     vt = (rng.normal() * t1 + rng.normal() * t2) * 2
+    if aligned:
+        vt = (t1 if rng.random() < 0.5 else t2) * float(rng.normal() * 2 + 0.1)
+        ctx.cls("contact:slip_along_a_tangent_axis")
     if bad == "penetration":
         pos = pos - n * float(rng.uniform(1e-3, 0.3))
     if carrier == "rigid_body":
@@ -252,7 +260,7 @@ def _build_contact(rng, ctx, det, bad=None):
     c = Sphere2Plane(plane, ball, mu, r=R, e_N=0.0, e_F=0.0, anisotropy=aniso, name="s2p")
     system.add(plane, ball, c)
     system.add(Force(m * GRAV, ball, name="grav"))
-    if rng.random() < 0.4:
+    if rng.random() < 0.4 or aligned:
         system.add(Force(rng.normal(size=3) * m * 3, ball, name="push"))
     det.update({"scenario": scen, "mu": mu, "carrier": carrier, "tilt": tilt, "radius": R, "anisotropy": aniso})
     if bad is None and rng.random() < 0.3:
